@@ -22,6 +22,15 @@ OP_KINDS = ['set', 'set', 'set', 'del', 'del', 'dense', 'sparse', 'sparse', 'nor
 TAIL_KINDS = ['set', 'set', 'set', 'set', 'del', 'dense', 'sparse', 'normalize', 'normalize', 'setbase', 'copy', 'copy-mutate']
 # the boundary states of the stored table a directed history is steered into before it goes on at random
 BOUNDARY_KINDS = ['del-all', 'del-all', 'zero-all', 'zero-all', 'keep-one', 'fill-all']
+# third stream (after the two above, which therefore stay what they were): entry points and argument shapes of the
+# anchored functions that the operation alphabet above never uses - copy(base=b), outcomes that are not even a
+# sequence of symbols, and initial distributions declared through the unsafe constructor `_make_distribution`
+EXT_KINDS = OP_KINDS + ['copy-base', 'copy-base', 'set', 'del']
+# things that are no sequence of symbols at all (hashable, as the docstrings of d[o] / d[o]=v / del d[o] require)
+ATOMS = [9, None, 2.5]
+# Outcomes given in the other sequence class (['#as', o]: ('1', '0') for a str distribution, 'ab' for a tuple one) used
+# to fail - assignment / deletion stored or looked up the foreign key verbatim on Cartesian spaces - and were repaired
+# in dit (0d91d3e); they are generated in the third stream and judged like the member, or the non-member, they spell.
 
 
 class C09(object):
@@ -32,7 +41,12 @@ class C09(object):
             "sample space and values incl. 0, 1 and the null log-probability; plus directed histories that first steer "
             "the stored table into a boundary state (every stored outcome deleted / every value zeroed [and trimmed away: "
             "nothing stored], all but one removed, every member of the space stored), then change the representation "
-            "(make_dense / make_sparse / set_base / copy) and go on at random; state compared after every operation; "
+            "(make_dense / make_sparse / set_base / copy) and go on at random; plus histories over the alphabet extended by "
+            "copy(base=b) and by set / del of things that are no sequence of symbols (9, None, 2.5), three quarters of them "
+            "on initial distributions declared through the unsafe constructor _make_distribution (sample_space None / a "
+            "plain list, base None = default base, scalar: values alone) whose declared table is the model's initial "
+            "state; every set / del outside the sample space is preceded by the same lookup (InvalidOutcome, no change); "
+            "state compared after every operation; "
             "non-trivial = the history contains a set of an unstored outcome or a delete of a stored one, and >= 3 ops")
     tolerances = {'values': 'rtol 1e-9 in the linear domain (normalize/set_base involve float arithmetic); read-back of a just-written value is bit-exact (oracle)'}
     exhaustive = {'thorough': True}
@@ -54,9 +68,25 @@ class C09(object):
         # directed histories (after the random stream, which therefore is what it always was)
         for _ in range(80 if tier == 'quick' else 4000):
             yield self.directed_case(rng)
+        for _ in range(110 if tier == 'quick' else 5000):
+            yield self.extension_case(rng)
 
-    def rand_op(self, rng, c, members, kinds):
+    def rand_op(self, rng, c, members, kinds, atoms=False):
+        op = self.rand_op0(rng, c, members, kinds, atoms)
+        # in the third stream (atoms=True: joint distributions only) an outcome - member or not, of the right length or
+        # not - is given in the other sequence class one time out of three, where the symbols allow one
+        if atoms and op[0] in ('set', 'del') and op[1][:1] != ['#atom'] and c['klass'] in ('str', 'str2', 'mixed') \
+                and rng.random() < 0.34:
+            op[1] = ['#as', op[1]]
+        return op
+
+    def rand_op0(self, rng, c, members, kinds, atoms=False):
         k = rng.choice(kinds)
+        if k == 'copy-base':
+            return ['copy-base', rng.choice(gen.BASES)]
+        if k in ('set', 'del') and atoms and rng.random() < 0.15:
+            o = ['#atom', rng.choice(ATOMS)]
+            return ['set', o, str(rng.choice(VALUE_MENU))] if k == 'set' else ['del', o]
         if k in ('set', 'del'):
             if rng.random() < 0.12:
                 o = [9] * c['n']
@@ -117,6 +147,37 @@ class C09(object):
         c['ops'] = ops
         return c
 
+    def extension_case(self, rng):
+        """Random histories over the extended alphabet (copy(base=b); set / del of something that is no sequence of
+        symbols) on initial distributions that are, three times out of four, declared through the unsafe constructor
+        `_make_distribution` (the anchored function `copy` is built on) from the outcomes and values of a regularly
+        constructed one: `via` says with which argument shapes (see `build_unsafe`)."""
+        c = gen.rand_dist_case(rng, nmin=1, nmax=3, amax=3, max_support=6,
+                               bases=['linear', 'linear', 'linear'] + gen.BASES)
+        c['scalar'] = c['n'] == 1 and c['space'] is None and rng.random() < 0.5
+        if rng.random() < 0.15:
+            # a scalar distribution given by its values alone: the outcomes are 0 .. k-1
+            k = rng.randint(1, 6)
+            pmf, style = gen.rand_prob_vector(rng, k)
+            c.update({'klass': 'tuple', 'n': 1, 'alphabets': [list(range(k))], 'outs': [[i] for i in range(k)],
+                      'pmf': [str(p) for p in pmf], 'space': None, 'spacekind': 'none', 'names': None, 'style': style,
+                      'scalar': True, 'trim': False})
+            c['via'] = {'space': rng.choice(['none', 'list']), 'pmf_none': True, 'extra': rng.randint(0, 2),
+                        'base_none': rng.random() < 0.35}
+        elif rng.random() < 0.75:
+            c['via'] = {'space': rng.choice(['none', 'none', 'list']), 'base_none': rng.random() < 0.35}
+        if c.get('via') and c['via']['base_none']:
+            # base=None stands for the library's default base: a legal use gives the values in that base
+            db = import_dit().params.ditParams['base']
+            if db in gen.BASE_ID:
+                c['base'] = db
+        members = self.space_members(c)
+        ops = []
+        for _ in range(rng.randint(1, 14)):
+            ops.append(self.rand_op(rng, c, members, EXT_KINDS, atoms=not c['scalar']))
+        c['ops'] = ops
+        return c
+
     def space_members(self, c):
         sp = c.get('space')
         if sp is None:
@@ -151,6 +212,10 @@ class C09(object):
         if case['base'] != 'linear':
             c = dict(case)
             c['base'] = 'linear'
+            yield c
+        if case.get('via'):
+            c = dict(case)
+            del c['via']
             yield c
 
     # ------------------------------------------------------------------
@@ -196,13 +261,63 @@ class C09(object):
             return r
         mdist = mj[2]
 
-        # model history
-        mops = []
+        # ---- the same table declared through the unsafe constructor (direct entry point of an anchored function)
+        via = case.get('via')
+        pre = 0
+        given = None
+        if via:
+            built = self.build_unsafe(dit, d, mdist, via, scalar)
+            if built is None:
+                r.features.append('via=not-a-legal-use')
+            else:
+                d, mdist, given = built
+                pre = 1
+                r.features += ['via:space=%s' % via['space'], 'via:base=%s' % ('default' if given['base_arg'] is None else 'given'),
+                               'via:pmf=%s' % ('none' if via.get('pmf_none') else 'given'),
+                               'via:declared=%s' % ('sparse' if given['sparse'] else 'dense')]
+
+        # set / del / lookup of something that is not a sequence of symbols: on the model side it is an outcome
+        # outside the sample space like any other (rank 9 is in no alphabet)
+        def is_atom(o):
+            return len(o) == 2 and o[0] == '#atom'
+
+        # ['#as', o]: the outcome o given in the *other* sequence class (a tuple of the symbols for a distribution whose
+        # outcomes are strings, the joined string for one whose outcomes are tuples of strings).  It names the same
+        # outcome - the table model sees o itself - unless joining is not faithful (a symbol of several characters:
+        # the string then spells an outcome of another length, which is outside every sample space).
+        def is_as(o):
+            return len(o) == 2 and o[0] == '#as'
+
+        def mout_of(o):
+            if is_atom(o):
+                return [9] * case['n']
+            if is_as(o):
+                if gen.is_str_class(klass) or all(len(gen.UNIVERSE[klass][x]) == 1 for x in o[1]):
+                    return o[1]
+                return [9] * case['n']
+            return o
+
+        def foreign_py(o):
+            u_ = gen.UNIVERSE[klass]
+            return tuple(u_[x] for x in o) if gen.is_str_class(klass) else ''.join(u_[x] for x in o)
+
+        topy0 = topy
+        topy = lambda o: o[1] if is_atom(o) else foreign_py(o[1]) if is_as(o) else topy0(o)
+
+        # model history (`mix[i]`: index in the model's answers of the state after operation i; the initial state of
+        # an unsafely declared distribution is read off a leading `copy`, which the model proves observationally
+        # neutral (copy_obs))
+        mops = [['copy']] * pre
+        mix = []
         for op in case['ops']:
             if op[0] == 'set':
-                mops.append(['set', op[1], q(Fraction(op[2]))])
+                mops.append(['set', mout_of(op[1]), q(Fraction(op[2]))])
             elif op[0] == 'del':
-                mops.append(['del', op[1]])
+                mops.append(['del', mout_of(op[1])])
+            elif op[0] == 'copy-base':
+                # copy(base=b) is, by its docstring, "copy and change the base of the copied distribution"
+                mops.append(['copy'])
+                mops.append(['setbase', gen.BASE_ID[op[1]]])
             elif op[0] == 'sparse':
                 mops.append(['sparse', op[1]])
             elif op[0] == 'setbase':
@@ -211,7 +326,43 @@ class C09(object):
                 mops.append(['copy'])
             else:
                 mops.append([op[0]])
+            mix.append(len(mops) - 1)
         mres = drv.call('hist', [mdist, mops])
+
+        if pre:
+            # what the unsafe constructor declares, by its docstring: the outcomes and values given, in the order
+            # given (never reordered, never made sparse or dense), the declared sparse flag, the base given or the
+            # default one; and that table is the initial state of the history
+            r.site = 'unsafe-constructor'
+            o0 = obs(d)
+            if [o for o, _ in o0['tab']] != given['outs']:
+                r.oracle_fail = '_make_distribution stores outcomes %s, given %s' % ([o for o, _ in o0['tab']], given['outs'])
+            elif [v for _, v in o0['tab']] != given['vals']:
+                r.oracle_fail = '_make_distribution stores values %s, given %s' % ([v for _, v in o0['tab']], given['vals'])
+            elif o0['sparse'] != given['sparse']:
+                r.oracle_fail = '_make_distribution declared %s reports is_sparse() = %s' % (
+                    'sparse' if given['sparse'] else 'dense', o0['sparse'])
+            elif o0['base'] != given['base']:
+                r.oracle_fail = '_make_distribution with base %r has base %r (expected %r)' % (given['base_arg'], o0['base'], given['base'])
+            if r.oracle_fail:
+                return r
+            m0 = gen.obs_model(mres[0][1])
+            diff0 = gen.compare_obs(o0, m0)
+            if diff0 is None:
+                try:
+                    d.validate()
+                    verdict0 = 'valid'
+                except Exception as e:  # noqa
+                    verdict0 = exc_enum(e)
+                if verdict0 != mres[0][2] and not self.near_threshold(o0):
+                    diff0 = 'validate() impl %s model %s' % (verdict0, mres[0][2])
+            if diff0 is not None:
+                r.features.append('construct-disagree')
+                r.mismatch = 'initial state declared through _make_distribution (%s): %s' % (given['how'], diff0)
+                r.detail = {'impl': o0, 'model': mres[0][1], 'given': given}
+                return r
+            r.site = 'mutation-history'
+        mres = [mres[j] for j in mix]
 
         space0 = obs(d)['space']
         alph0 = obs(d)['alphabets']
@@ -223,15 +374,43 @@ class C09(object):
             base = d.get_base()
             out = 'ok'
             written = None
+            om = mout_of(op[1]) if op[0] in ('set', 'del') else None     # the outcome the table model sees
+            if om is not None and is_as(op[1]):
+                note('other-class=%s' % ('member' if om in space0 else 'non-member'))
+                if om in space0:
+                    # lookups: the member given in the other class reads exactly what the member itself reads
+                    try:
+                        a_, b_ = float(d[topy(op[1])]), float(d[topy0(om)])
+                        if not (a_ == b_ or (math.isnan(a_) and math.isnan(b_))):
+                            r.oracle_fail = 'op %d: d[%r] reads %r, d[%r] reads %r (same outcome, other sequence class)' % (
+                                i, topy(op[1]), a_, topy0(om), b_)
+                    except Exception as e:  # noqa
+                        r.oracle_fail = 'op %d: lookup of the member %r given as %r raised %s' % (i, topy0(om), topy(op[1]), exc_enum(e))
+                    if r.oracle_fail:
+                        break
+            if op[0] in ('set', 'del') and om not in space0:
+                # what is outside the sample space for assignment and deletion is outside it for lookups too
+                # (the model's `get` is undefined there; `__getitem__` documents InvalidOutcome), and asking changes nothing
+                try:
+                    look = 'ok: %r' % (d[topy(op[1])],)
+                except Exception as e:  # noqa
+                    look = exc_enum(e)
+                note('lookup-outside=%s' % ('atom' if is_atom(op[1]) else 'wrong-length' if len(op[1][1] if is_as(op[1]) else op[1]) != case['n'] else 'symbols'))
+                if look != 'InvalidOutcome':
+                    r.oracle_fail = 'op %d: lookup d[o] of %s, which is outside the sample space, gave %s, not InvalidOutcome' % (i, op[1], look)
+                elif obs(d) != before:
+                    r.oracle_fail = 'op %d: the rejected lookup of %s changed the state' % (i, op[1])
+                if r.oracle_fail:
+                    break
             try:
                 if op[0] == 'set':
                     v = gen.log_of(Fraction(op[2]), base)
-                    if tuple(op[1]) not in stored_now and op[1] in space0:
+                    if tuple(om) not in stored_now and om in space0:
                         interesting = True
                     d[topy(op[1])] = v
                     written = (op[1], v)
                 elif op[0] == 'del':
-                    if tuple(op[1]) in stored_now:
+                    if tuple(om) in stored_now:
                         interesting = True
                     del d[topy(op[1])]
                 elif op[0] == 'dense':
@@ -262,6 +441,24 @@ class C09(object):
                             if [repr(x) for x in c2.rand(4)] != [repr(x) for x in d.rand(4)]:
                                 r.oracle_fail = 'copy does not reproduce the future random draws of its source'
                     d = c      # continue on the copy
+                elif op[0] == 'copy-base':
+                    c = d.copy(base=op[1])
+                    if obs(d) != before:
+                        r.oracle_fail = 'copy(base=%r) changed its source (op %d)' % (op[1], i)
+                    elif c.get_base() != op[1]:
+                        r.oracle_fail = 'copy(base=%r) has base %r (op %d)' % (op[1], c.get_base(), i)
+                    elif (not scalar) and c.get_rv_names() != d.get_rv_names():
+                        r.oracle_fail = 'copy(base=%r) has different variable names' % (op[1],)
+                    elif obs(c)['space'] != before['space'] or obs(c)['alphabets'] != before['alphabets'] or \
+                            [o for o, _ in obs(c)['tab']] != [o for o, _ in before['tab']] or obs(c)['sparse'] != before['sparse']:
+                        r.oracle_fail = 'copy(base=%r) differs from its source in sample space, alphabets, stored outcomes or sparse flag (op %d)' % (op[1], i)
+                    elif len(d) > 0 and self.samplable(d):
+                        d.prng.seed(4321 + i)
+                        c2 = d.copy(base=op[1])
+                        if [repr(x) for x in c2.rand(4)] != [repr(x) for x in d.rand(4)]:
+                            r.oracle_fail = 'copy(base=%r) does not reproduce the future random draws of its source' % (op[1],)
+                    note('copy-base:%s->%s' % ('log' if base != 'linear' else 'linear', 'log' if op[1] != 'linear' else 'linear'))
+                    d = c      # continue on the copy; its values are compared with the model's copy + set_base below
                 elif op[0] == 'copy-mutate':
                     c = d.copy()
                     snap = obs(c)
@@ -290,17 +487,26 @@ class C09(object):
             if len(now['tab']) == 0:
                 note('reached=nothing-stored')
             # ---- oracle clauses that need no model
-            if op[0] in ('set', 'del') and op[1] not in space0 and out != 'InvalidOutcome':
+            if op[0] in ('set', 'del') and om not in space0 and out != 'InvalidOutcome':
                 r.oracle_fail = 'op %d %s with an outcome outside the sample space gave %s, not InvalidOutcome' % (i, op, out)
-            elif op[0] in ('set', 'del') and op[1] in space0 and out != 'ok':
+            elif op[0] in ('set', 'del') and om in space0 and out != 'ok':
                 r.oracle_fail = 'op %d %s on a member of the sample space raised %s' % (i, op, out)
             elif op[0] == 'del' and out == 'ok' and gen.lin_of(float(d[topy(op[1])]), d.get_base()) != 0.0:
                 r.oracle_fail = 'op %d: after del d[%s] the outcome still reads %r' % (i, op[1], float(d[topy(op[1])]))
+            elif op[0] == 'del' and out == 'ok' and is_as(op[1]) and gen.lin_of(float(d[topy0(om)]), d.get_base()) != 0.0:
+                r.oracle_fail = 'op %d: after del d[%r] (the member %r in the other sequence class) d[%r] still reads %r' % (
+                    i, topy(op[1]), topy0(om), topy0(om), float(d[topy0(om)]))
             elif written is not None and out == 'ok':
                 got = float(d[topy(written[0])])
                 if not (got == written[1] or (math.isnan(got) and math.isnan(written[1]))):
                     r.oracle_fail = 'read-back after d[o]=v: wrote %r, read %r' % (written[1], got)
-            elif op[0] in ('dense', 'sparse', 'normalize', 'setbase', 'copy', 'copy-mutate') and isinstance(out, str) \
+                elif is_as(written[0]):
+                    # the member written through its other-class spelling is the member: it reads the value too
+                    got = float(d[topy0(om)])
+                    if not (got == written[1] or (math.isnan(got) and math.isnan(written[1]))):
+                        r.oracle_fail = 'op %d: wrote %r to d[%r]; the same outcome spelled %r reads %r' % (
+                            i, written[1], topy(written[0]), topy0(om), got)
+            elif op[0] in ('dense', 'sparse', 'normalize', 'setbase', 'copy', 'copy-mutate', 'copy-base') and isinstance(out, str) \
                     and out != 'ok' and (mout == 'ok' or self.is_rat(mout)):
                 # these take no outcome: in the table model they are total (normalize: on a table of non-null mass,
                 # the only kind it is run on), so there is nothing for them to reject
@@ -337,6 +543,83 @@ class C09(object):
                 break
         r.nontrivial = interesting and len(case['ops']) >= 3
         return r
+
+    def build_unsafe(self, dit, d, mdist, via, scalar):
+        """Declare the table of the regularly constructed `d` (model state `mdist`, already found equal) through the
+        unsafe constructor `_make_distribution` with the argument shapes `via` names, and say what that declares
+        (model state).  Only legal uses (docstring: outcomes and values in the order of the sample space; nothing is
+        reordered, made sparse or dense; the sparse flag is just declared) are built - None otherwise.
+
+          joint,  space 'none': sample_space=None -> the Cartesian product of the alphabets of the given outcomes,
+                                each in order of first appearance (`construct_alphabets` does not sort);
+                  space 'list': sample_space = a plain list.  The list is the list of the given outcomes: the code
+                                takes the sample space from the *outcomes* whenever `sample_space` is neither None nor
+                                a SampleSpace object, so only then is what it declares unambiguous (NOT JUDGED: a
+                                list with further members - they are silently dropped; reported, not a statement
+                                of C09);
+          scalar, space 'none': sample_space=None -> the given outcomes are the sample space;
+                  space 'list': sample_space = the members of the source's sample space as a plain list;
+                  pmf_none:     only the values are given: the outcomes are 0 .. k-1 (with space 'list': 0 .. k-1+extra);
+          base_none:            base=None -> ditParams['base'] (legal only if the values are in that base).
+        """
+        space, tab, sparse, bid = mdist
+        outs = tuple(d.outcomes)
+        pmf = np.array(d.pmf, copy=True)
+        if len(outs) == 0 or len(outs) != len(tab):
+            return None
+        base = d.get_base()
+        default_base = dit.params.ditParams['base']
+        base_arg = None if (via.get('base_none') and base == default_base) else base
+        routs = [o for o, _ in tab]
+        how = dict(via)
+        if scalar:
+            from dit.npscalardist import _make_distribution as mk
+            if via.get('pmf_none'):
+                if not all(isinstance(x, int) for x in outs):
+                    return None
+                routs = [[i] for i in range(len(pmf))]
+                tab = [[o, v] for o, (_, v) in zip(routs, tab)]
+                if via['space'] == 'none':
+                    d2 = mk(pmf.tolist(), base=base_arg, sparse=sparse)
+                    mspace = ['expl', routs]
+                else:
+                    k = len(pmf) + via.get('extra', 0)
+                    if k > 10:
+                        return None        # the harness reads the symbols 0 .. 9 only
+                    if k != len(pmf):
+                        sparse = True      # a dense table stores its whole sample space
+                    d2 = mk(pmf.tolist(), sample_space=list(range(k)), base=base_arg, sparse=sparse)
+                    mspace = ['expl', [[i] for i in range(k)]]
+            elif via['space'] == 'none':
+                d2 = mk(outs, pmf, base=base_arg, sparse=sparse)
+                mspace = ['expl', routs]
+            else:
+                d2 = mk(outs, pmf, sample_space=list(d.sample_space()), base=base_arg, sparse=sparse)
+                mspace = space
+        else:
+            from dit.npdist import _make_distribution as mk
+            if via['space'] == 'none':
+                alph = [[] for _ in routs[0]]
+                for o in routs:
+                    for a, x in zip(alph, o):
+                        if x not in a:
+                            a.append(x)
+                prod = [[]]
+                for a in alph:
+                    prod = [o + [x] for o in prod for x in a]
+                idx = [prod.index(o) for o in routs]
+                if idx != sorted(idx):
+                    return None            # the given outcomes are not in the order of the space they induce
+                if len(routs) != len(prod):
+                    sparse = True          # a dense table stores its whole sample space
+                d2 = mk(outs, pmf, base_arg, sparse=sparse)
+                mspace = ['cart', alph]
+            else:
+                d2 = mk(outs, pmf, base_arg, sample_space=list(outs), sparse=sparse)
+                mspace = ['expl', routs]
+        given = {'outs': routs, 'vals': [float(v) for v in pmf], 'sparse': bool(sparse), 'base': base,
+                 'base_arg': base_arg, 'how': how}
+        return d2, [mspace, tab, bool(sparse), bid], given
 
     @staticmethod
     def is_rat(x):
